@@ -9,11 +9,16 @@
   and the rejection half for every validator (a request the validators refuse is answered with
   its code and *no event at all*, in every world), and, field by field, that a refusal only
   happens when the documents name that cause (zone ≠ valid) and an acceptance only when the
-  documents do not forbid the value (zone ≠ invalid) — for udValue and keyId; the remaining
-  fields (message, auth, brothers) are covered by the correspondence stream with the oracle.
+  documents do not forbid the value (zone ≠ invalid) — for udValue and keyId; and, composed
+  (`gate_refusals_conform`, `simple_commands_conform`, `Proofs/Classify.lean`): for every JSON object
+  the gate's refusals, and the verdicts of every version-1 command and of the seven version-5
+  commands that carry no transaction or block, are the ones `Spec.C02.judge` prescribes.  The
+  remaining fields (v5 message, auth, blocks, brothers) are covered by the correspondence stream
+  with the oracle.
 -/
 import PowHsm.Spec.C02
 import PowHsm.Proofs.Monad
+import PowHsm.Proofs.Classify
 namespace PowHsm
 namespace Props.C02
 open Ledger Comm Spec Spec.C02
@@ -52,44 +57,84 @@ theorem accepted_is_operated (m : Mode) (hs : Dongle.Hashes) (kvs : List (String
 /-- udValue: what the documents call valid is accepted; what is accepted is not forbidden -/
 theorem udValue_sound (v : Json) (n : Nat) :
     (hexOfLenZone v n true = .valid → hexStrOfLength n v = true) ∧
-    (hexStrOfLength n v = true → hexOfLenZone v n true ≠ .invalid) := by
-  cases v <;> simp [hexOfLenZone, hexStrOfLength, Py.isHexOfLength]
-  rename_i s
-  cases hf : Py.fromHex s with
-  | none => simp
-  | some b =>
-    by_cases hb : b.length = n
-    · simp [hb]; split <;> simp
-    · simp [hb]
+    (hexStrOfLength n v = true → hexOfLenZone v n true ≠ .invalid) := Classify.udValue_sound v n
 
 /-- keyId: a documented path is accepted; a refusal means the value is not a documented path -/
 theorem keyId_refusal_sound (c : Codes) (kvs : List (String × Json)) (e : Int)
-    (h : validateKeyId c kvs = .error e) : e = c.invalidKeyId ∧ keyIdZone kvs ≠ .valid := by
-  unfold validateKeyId at h
-  unfold keyIdZone
-  cases hl : Json.lookup kvs "keyId" with
-  | none => simp [hl] at h; exact ⟨h.symm, by simp⟩
-  | some v =>
-    cases v <;> simp [hl] at h <;> try exact ⟨h.symm, by simp⟩
-    rename_i s
-    cases hp : Bip32.parsePath s with
-    | some p => simp [hp] at h
-    | none =>
-      simp [hp] at h
-      refine ⟨h.symm, ?_⟩
-      by_cases hd : documentedPaths.contains s = true
-      · -- every documented path parses: contradiction with `hp`
-        exfalso
-        simp only [documentedPaths, List.contains_cons, List.contains_nil, Bool.or_false,
-          Bool.or_eq_true, beq_iff_eq] at hd
-        rcases hd with rfl | rfl | rfl | rfl | rfl | rfl <;> revert hp <;> decide
-      · have hd' : ¬ s ∈ documentedPaths := by simpa using hd
-        simp only [List.contains_eq_mem, hd', decide_false]
-        by_cases hg : pathGrammar s = true <;> simp [hg]
+    (h : validateKeyId c kvs = .error e) : e = c.invalidKeyId ∧ keyIdZone kvs ≠ .valid :=
+  Classify.keyId_refusal c kvs e h
+
+/-- …and a key id the validator accepts is written in the documents' path grammar: the documents do
+    not forbid it -/
+theorem keyId_accept_sound (c : Codes) (kvs : List (String × Json)) (p : List Nat)
+    (h : validateKeyId c kvs = .ok p) : keyIdZone kvs ≠ .invalid :=
+  Classify.keyId_accept_not_invalid c kvs p h
 
 /-- non-vacuity: the six documented paths are accepted and encode as the firmware expects -/
 example : Bip32.parsePath "m/44'/0'/0'/0/0" = some [0x8000002C, 0x80000000, 0x80000000, 0, 0] := by decide
 example : Bip32.parsePath "m/44'/137'/1'/0/0" = some [0x8000002C, 0x80000089, 0x80000001, 0, 0] := by decide
+
+/-! ### the documents' verdict, proved for every JSON value (gate: every command; validators: every
+    command whose verdict does not depend on a transaction or a block) -/
+
+/-- **every refusal of the generic gate is the one the documents prescribe, and nothing reaches the
+    device**: for every mode and every JSON object — a missing command or version, a version that is
+    not the protocol's, a command that is not the protocol's — the reply carries the code
+    `Spec.C02.judge` allows, and the observation (that reply, no event) satisfies the oracle
+    `Spec.C02.allowedObs` -/
+theorem gate_refusals_conform (m : Mode) (hs : Dongle.Hashes) (kvs : List (String × Json)) (w : World)
+    (e : Int) (h : gate (codes m) kvs = .error e) :
+    Rejected (handleRequest m hs (.obj kvs) w) w e ∧
+    allowedObs m (.obj kvs) (Classify.refusalObs e w.commIssue) = true := by
+  refine ⟨(rejected_no_contact m hs kvs w).1 e h, ?_⟩
+  have hmay := Classify.gate_refusal_allowed m kvs e h
+  refine Classify.allowed_of_refusal m _ e _ ?_ hmay
+  -- the gate's codes are not 0
+  obtain ⟨hreq, hver, hunk, _, _⟩ := Classify.codes_generic m
+  obtain ⟨n1, n2, n3⟩ := Classify.gate_codes_nonzero m
+  rw [Classify.gate_eq] at h
+  cases hc : Json.lookup kvs "command" with
+  | none => simp only [hc] at h; injection h with h; rw [← h, hreq]; exact n1
+  | some cmd =>
+    simp only [hc] at h
+    split at h
+    · injection h with h; rw [← h, hreq]; exact n1
+    · cases hv : Json.lookup kvs "version" with
+      | none =>
+        simp only [hv] at h
+        rw [(Classify.cmdStep_error m cmd e h).1]; exact n3
+      | some v =>
+        simp only [hv] at h
+        split at h
+        · injection h with h; rw [← h, hver]; exact n2
+        · rw [(Classify.cmdStep_error m cmd e h).1]; exact n3
+
+/-- **the commands whose verdict does not depend on a transaction or a block are classified exactly
+    as the documents prescribe, for every JSON object**: version 1 in full (`version`, `sign`,
+    `getPubKey`); version 5 for `version`, `getPubKey`, `resetAdvanceBlockchain`, `blockchainState`,
+    `blockchainParameters`, `signerHeartbeat`, `uiHeartbeat`.  A refusal by the validator carries a
+    code the documents allow for a field whose value they do not call valid, reaches no device and
+    satisfies the oracle; what the validator accepts the documents do not forbid. -/
+theorem simple_commands_conform (m : Mode) (hs : Dongle.Hashes) (kvs : List (String × Json)) (w : World)
+    (name : String) (hg : gate (codes m) kvs = .ok name)
+    (hsimple : (name = "sign" → m = .v1) ∧ name ≠ "advanceBlockchain" ∧ name ≠ "updateAncestorBlock") :
+    (∀ e, validateCmd m name kvs = .error e → e ≠ 0 →
+      Rejected (handleRequest m hs (.obj kvs) w) w e ∧
+      allowedObs m (.obj kvs) (Classify.refusalObs e w.commIssue) = true) ∧
+    (∀ p, validateCmd m name kvs = .ok p → (judge m (.obj kvs)).2 = false) := by
+  obtain ⟨href, hacc⟩ := Classify.simple_commands_classified m kvs name hg hsimple
+  refine ⟨fun e he hne => ⟨(rejected_no_contact m hs kvs w).2 name e hg he, ?_⟩, hacc⟩
+  exact Classify.allowed_of_refusal m _ e _ hne (href e he)
+
+/-- non-vacuity: a version-5 `getPubKey` with an undocumented but well-formed path is refused with
+    -103 (allowed: the documents do not call the value valid), one with a documented path is accepted -/
+example :
+    (match validateCmd .v5 "getPubKey" [("command", .str "getPubKey"), ("version", .int 5), ("keyId", .str "m/44'/0'/0'/0")] with
+     | .error e => e == -103 | .ok _ => false) = true ∧
+    (match gate (codes .v5) [("command", .str "getPubKey"), ("version", .int 5), ("keyId", .str "m/44'/0'/0'/0")] with
+     | .ok n => n == "getPubKey" | .error _ => false) = true ∧
+    (match validateCmd .v5 "getPubKey" [("command", .str "getPubKey"), ("version", .int 5), ("keyId", .str "m/44'/1'/2'/0/0")] with
+     | .ok p => p.length == 5 | .error _ => false) = true := by decide
 
 /-- F-02b: the full statement fails for `blocks` — a member that is not hex passes validation
     (so the manager goes on to talk to the device) although the documents type it `hhhh`. -/
